@@ -46,8 +46,8 @@ TRUSTED = ['harness/sched.py DetLoop with pure-Python tasks (one handle per step
            'Python 3.12.1 asyncio Lock/Condition/shield/Task.cancel semantics are mirrored by the model '
            '(uncontended Lock.acquire is atomic, Condition.wait re-acquires before raising CancelledError, '
            'notify marks the first not-yet-notified waiter); tied by the co-simulation itself',
-           'fake connection objects (closed/close/reset/connect) stand in for wpull.network.connection.Connection '
-           'below the real HappyEyeballsConnection wrapper']
+           'the real wpull.network.connection.Connection below the real HappyEyeballsConnection, over harness/fakenet.py '
+           '(a remote close is the peer\'s EOF on the real StreamReader)']
 ASSUMPTIONS = ['clients follow the BaseSession protocol (every acquired connection is released exactly once, after '
                'abort() on error/cancellation); release tasks themselves are never cancelled from outside',
                'single-stack resolution (HappyEyeballs dual-stack racing is not part of the pool bookkeeping)',
@@ -77,37 +77,22 @@ def yield_once():
 # --------------------------------------------------------------------------
 # real side
 # --------------------------------------------------------------------------
-class FakeConn:
-    """Stands in for wpull.network.connection.Connection below HappyEyeballsConnection."""
+class Passive:
+    """fakenet handler without behaviour: the peer only ever closes (decision `q`)."""
 
-    def __init__(self, run, address, hostname=None, **kw):
-        self.run = run
-        self.address = address
-        self.hostname = hostname
-        self.host = address[0]
-        self.port = address[1]
-        self.open = False
-        self.fail_next = False
-        self.key = None
 
-    def closed(self):
-        return not self.open
+def make_net(run):
+    import fakenet
 
-    def close(self):
-        self.open = False
-
-    def reset(self):
-        self.open = False
-
-    @asyncio.coroutine
-    def connect(self):
-        from wpull.errors import NetworkError
-        if self.fail_next:
-            self.fail_next = False
-            raise NetworkError('scripted connect failure')
-        self.open = True
-        return
-        yield  # pragma: no cover
+    class Net(fakenet.FakeNet):
+        async def open_connection(self, host=None, port=None, **kwargs):
+            if run._fail_next_connect:
+                run._fail_next_connect = False
+                raise ConnectionRefusedError(111, 'Connection refused')
+            return await super().open_connection(host, port, **kwargs)
+    net = Net()
+    net.default = Passive
+    return net
 
 
 class LogSet(set):
@@ -139,10 +124,13 @@ class RealRun:
         import asyncio.events as ev
         self._old_running = ev._get_running_loop()
         ev._set_running_loop(self.loop)
-        self.pool = ConnectionPool(max_host_count=self.M, resolver=fakenet.FakeResolver(),
-                                   connection_factory=self._factory, max_count=self.max_count)
+        # the REAL wpull.network.connection.Connection (closed()/close()/reset()/connect()) below the real
+        # HappyEyeballsConnection, over the in-memory network: a remote close is the peer's EOF on the stream
+        self._fail_next_connect = False
+        self.net = make_net(self)
+        self.net.install()
+        self.pool = ConnectionPool(max_host_count=self.M, resolver=fakenet.FakeResolver(), max_count=self.max_count)
         self.pool._release_tasks = LogSet(self)
-        self._fail_fresh = False
         self._releasing = None
         orig_nwr = self.pool.no_wait_release
 
@@ -193,18 +181,29 @@ class RealRun:
                     t.exception()
         except Exception:
             pass
+        try:
+            self.net.uninstall()
+        except Exception:
+            pass
         ev._set_running_loop(self._old_running)
         self.loop.set_exception_handler(lambda *a: None)
         self.loop.close()
         asyncio.set_event_loop(None)
 
     # ---- instrumentation
-    def _factory(self, address, hostname=None, **kw):
-        c = FakeConn(self, address, hostname)
-        if self._fail_fresh:
-            c.fail_next = True
-            self._fail_fresh = False
-        return c
+    def peer_open(self, wrapper):
+        """Network truth (not Connection.closed()): the wrapper has a connection that neither side has closed."""
+        fc = self.net_conn_of(getattr(wrapper, '_active_connection', None))
+        return fc is not None and not fc.server_closed and not fc.client_closed
+
+    def net_conn_of(self, connection):
+        """The in-memory peer end of a real Connection (by its StreamReader)."""
+        if connection is None or connection.reader is None:
+            return None
+        for c in self.net.conns:
+            if c.reader is connection.reader:
+                return c
+        return None
 
     def conn_id(self, wrapper, key):
         cid = self.conn_ids.get(id(wrapper))
@@ -252,10 +251,8 @@ class RealRun:
                         await yield_once()
                         if conn.closed():
                             conn.reset()
-                            if close and conn._active_connection is not None:
-                                conn._active_connection.fail_next = True
-                            elif close:
-                                self._fail_fresh = True
+                            if close:
+                                self._fail_next_connect = True      # the connect is refused: NetworkError -> abort()
                             await compat._ensure(conn.connect())
                         if close:
                             conn.close()
@@ -326,7 +323,7 @@ class RealRun:
         out = []
         for key, p in self.pool._host_pools.items():
             for c in p.ready:
-                if not c.closed():
+                if self.peer_open(c):
                     out.append('q%d-%d' % self.cid_of(c))
         return sorted(out)
 
@@ -336,7 +333,7 @@ class RealRun:
             if not t.done():
                 out.append('x%d' % i)
         for cid, w in sorted(self.conn_objs.items()):
-            if not w.closed():
+            if self.peer_open(w):
                 out.append('q%d-%d' % cid)
         return out
 
@@ -344,7 +341,7 @@ class RealRun:
         """Apply one decision; returns the resolved decision string."""
         self.events = []
         self.popped = []
-        self._fail_fresh = False
+        self._fail_next_connect = False
         kind = d[0]
         if kind in 'sr':
             name = ('c' + d[1:]) if kind == 's' else d
@@ -358,8 +355,9 @@ class RealRun:
         elif kind == 'q':
             k, n = d[1:].split('-')
             w = self.conn_objs[(int(k), int(n))]
-            if w._active_connection is not None:
-                w._active_connection.open = False
+            fc = self.net_conn_of(w._active_connection)
+            if fc is not None:
+                fc.close()          # the peer closes: EOF on the real StreamReader -> real Connection.closed()
             self.dirty.add((int(k), int(n)))
         else:
             raise Infra('bad decision %r' % d)
@@ -469,13 +467,13 @@ class RealRun:
                 self.oracle.append(('leak', 'lock-held', 'host pool lock of %s still held; %s' % (key, self.render())))
             # idle host = host without a live connection: a dead idle connection may only be one the peer closed
             # after the last completed check-in (every check-in sweeps all hosts)
-            stale = sorted(self.cid_of(c) for c in p.ready if c.closed() and self.cid_of(c) not in self.dirty)
+            stale = sorted(self.cid_of(c) for c in p.ready if not self.peer_open(c) and self.cid_of(c) not in self.dirty)
             if stale:
                 self.oracle.append(('leak', 'dead-idle-kept',
                                     'host pool %s kept with dead idle connection(s) %s that died before the last check-in '
                                     '(count()=%d); %s' % (key, stale, pool.count(), self.render())))
-        live = sum(1 for p in pool._host_pools.values() for c in p.ready if not c.closed())
-        recent = sum(1 for p in pool._host_pools.values() for c in p.ready if c.closed() and self.cid_of(c) in self.dirty)
+        live = sum(1 for p in pool._host_pools.values() for c in p.ready if self.peer_open(c))
+        recent = sum(1 for p in pool._host_pools.values() for c in p.ready if not self.peer_open(c) and self.cid_of(c) in self.dirty)
         busy = sum(len(p.busy) for p in pool._host_pools.values())
         if pool.count() != live + recent + busy:
             self.oracle.append(('leak', 'count', 'count()=%d but %d live idle (+%d just closed by the peer, %d busy); %s'
